@@ -108,6 +108,10 @@ class PipeRelay(Relay):
         log.stdio(p, stdin, stdout, stderr)
         log.exit(p)
         if p.returncode != 0:
+            if isinstance(stdout, bytes):
+                stdout = stdout.decode('utf-8', 'replace')
+            if isinstance(stderr, bytes):
+                stderr = stderr.decode('utf-8', 'replace')
             try:
                 self.raise_error(p.returncode, stdout, stderr)
             except (PermanentRelayError, TransientRelayError) as exc:
@@ -138,11 +142,14 @@ class PipeRelay(Relay):
         try:
             with Timeout(self.timeout):
                 args = self._process_args(envelope, rcpt)
-                return self._exec_process(args, stdin)
+                error = self._exec_process(args, stdin)
         except Timeout:
             msg = 'Delivery timed out'
             reply = Reply('450', '4.4.2 ' + msg)
             raise TransientRelayError(msg, reply)
+        if error is not None:
+            raise error
+        return None
 
     def raise_error(self, status, stdout, stderr):
         """This method may be over-ridden by sub-classes if you need to control
